@@ -97,8 +97,21 @@ def run_shard(ctx, spec):
     rows = sorted(mon.live)[spec['i']::spec['n']]
     hi = 1500 if ctx.tier == 'quick' else 3000
     for (g, e) in rows:
-        for t in range(-10, hi + 1):
-            attach.call(mon.perf, g, e, t)
+        if (g, e) != ('M', '800'):
+            for t in range(-10, hi + 1):
+                attach.call(mon.perf, g, e, t)
+        else:
+            # hostile mix: the ESAA variant of the forward score is used on the same marks FIRST
+            # (a stale memo or a mutated coefficient row would poison the standard answers)
+            raw = attach.original(mon.perf)
+            for t in range(1, hi + 1):
+                p = raw(g, e, t)
+                for q in (p, round(p + 0.01, 2)):
+                    mon.raw_score(g, e, q, esaa=True)
+                attach.call(mon.perf, g, e, t)
+                ctx.count('eval.esaa-interleaved')
+            for t in range(-10, hi + 1):
+                attach.call(mon.perf, g, e, t)
     if spec['i'] == 0:
         for g, e in UNKNOWN:
             for t in (-5, 0, 1, 500, 1500):
